@@ -12,7 +12,7 @@
   C++ is represented: where the C++ would index outside a buffer, shift out of range, overflow a
   signed int or fail an assertion the model stops with `Stop.ub site why` (never silently totalised);
   a C++ exception is `Stop.err kind`; loops that are not bounded by a counter run on explicit fuel
-  and stop with `Stop.hang` when it is exhausted (Props/C11 proves the fuel bound).
+  and stop with `Stop.fuel` when it is exhausted (Props/C11 proves that this never happens).
 
   Core Lean only (linked into the native driver drv_C11).
 -/
@@ -36,7 +36,8 @@ def scanRowLimit : Int := 65536
 inductive Stop where
   | err (kind : String)                 -- a C++ exception: "io" (std::ios_base::failure) | "alloc" (bad_alloc / length_error)
   | ub (site : String) (why : String)   -- undefined behaviour / abort; site = "<kind>@<file>:<function>" as the sanitizers name it
-  | hang (why : String)                 -- does not terminate (fuel exhausted / unbounded iteration)
+  | hang (why : String)                 -- genuinely does not terminate (an iteration that never reaches its end)
+  | fuel (loop : String)                -- the fuel of the named loop ran out (Props/C11: never happens)
   deriving DecidableEq, Repr
 
 /-- result of a successful read: header / dimension fields and destination bytes (256 = never written) -/
@@ -219,11 +220,12 @@ def recreateImage (st : Settings) (w h : Int) : M Dest := do
     pure (Dest.mk' w h st.dst.nch 0)
 
 /-- `check_image_size(view.dimensions())` (identical in the three back ends) -/
+def checkDim (dim v w : Int) : M Unit :=
+  if dim > 0 then (if v < dim then ioErr else pure ())
+  else (if v < w then ioErr else pure ())
 def checkImageSize (st : Settings) (dimx dimy w h : Int) : M Unit := do
-  if dimx > 0 then (if st.vw < dimx then ioErr else pure ())
-  else (if st.vw < w then ioErr else pure ())
-  if dimy > 0 then (if st.vh < dimy then ioErr else pure ())
-  else (if st.vh < h then ioErr else pure ())
+  checkDim dimx st.vw w
+  checkDim dimy st.vh h
 
 /-- the region check at the end of the three reader_backend constructors (/repo c6180a1) -/
 def checkSettings (st : Settings) (dimx dimy w h : Int) : M Unit :=
@@ -579,7 +581,7 @@ def absRun4 (pal : Palette) (declared : Int) (count second : Int) : Nat → Int 
 /-- read_palette_image_rle main loop; one unit of fuel per `while (!finished)` iteration -/
 def rleLoop (i : Info) (pitch : Int) (st : Settings) (dimx dimy : Int) (pal : Palette) (yend yinc : Int) :
     Nat → Rle → Dest → M Dest
-  | 0, _, _ => stop (.hang "fuel exhausted in read_palette_image_rle")
+  | 0, _, _ => stop (.fuel "read_palette_image_rle")
   | fuel + 1, r, d => do
     let count ← readU8
     let second ← readU8
@@ -788,7 +790,7 @@ def isSpace (c : Nat) : Bool := c == 32 || (9 ≤ c && c ≤ 13)
 
 /-- skip a comment to end of line; every `getc()` throws at end of file. One unit of fuel per character. -/
 def skipComment : Nat → M Nat
-  | 0 => stop (.hang "fuel exhausted in read_char")
+  | 0 => stop (.fuel "read_char")
   | fuel + 1 => do
     let c ← getcChecked
     if c == 10 ∨ c == 13 then pure c else skipComment fuel
@@ -802,13 +804,13 @@ def readChar : M Nat := do
   else pure c
 
 def skipWs : Nat → M Nat
-  | 0 => stop (.hang "fuel exhausted in read_int")
+  | 0 => stop (.fuel "read_int")
   | k + 1 => do
     let c ← readChar
     if c == 32 ∨ c == 9 ∨ c == 10 ∨ c == 13 then skipWs k else pure c
 
 def digitsLoop : Nat → Nat → Nat → M Int
-  | 0, _, _ => stop (.hang "fuel exhausted in read_int")
+  | 0, _, _ => stop (.fuel "read_int")
   | k + 1, c, val => do
     let dig := c - 48
     if val > 214748364 - dig then ioErr      -- val > INT_MAX / 10 - dig
@@ -855,7 +857,7 @@ def atoiByte (ds : List Nat) : Nat := (ds.foldl (fun v d => v * 10 + (d - 48)) 0
 /-- one token of a text row: `some digits`, or `none` when the row ends early (EOF or a non-space character).
     One unit of fuel per character. -/
 def token (site : String) : Nat → List Nat → M (Option (List Nat))
-  | 0, _ => stop (.hang "fuel exhausted in read_text_row")
+  | 0, _ => stop (.fuel "read_text_row")
   | fuel + 1, acc => do
     let c ← getcUnchecked
     match c with
@@ -1109,7 +1111,7 @@ def readBytes : Nat → List Nat → M (List Nat)
 
 /-- the packet loop of read_rle_data: `data` is image_data up to `pixel` (reversed chunks), one unit of fuel per packet -/
 def rleLoop (bpp : Nat) (imageSize : Nat) : Nat → Nat → List (List Nat) → M (List (List Nat))
-  | 0, _, _ => stop (.hang "fuel exhausted in read_rle_data")
+  | 0, _, _ => stop (.fuel "read_rle_data")
   | fuel + 1, pixel, acc =>
     if pixel < imageSize then do
       let cur ← readU8
@@ -1128,18 +1130,21 @@ def rleLoop (bpp : Nat) (imageSize : Nat) : Nat → Nat → List (List Nat) → 
           else rleLoop bpp imageSize fuel (pixel + written) (got :: acc)
     else pure acc
 
+/-- the source pixels of destination row `y`: `beg = v.row_begin(first_row + y) + top_left.x` over the flipped whole-image view `v` -/
+def rleRowPixels (i : Info) (st : Settings) (dimx : Int) (bpp : Nat) (data : List Nat) (firstRow y : Int) : M (List Nat) :=
+  let r := i.height - 1 - (firstRow + y)
+  let start := (r * i.width + st.x0) * bpp
+  if firstRow + y < 0 ∨ firstRow + y ≥ i.height then
+    ubAt ("assert@" ++ fRle) "v.row_begin(first_row + y): BOOST_ASSERT(0 <= y && y < height()) (settings are not checked against the image size)"
+  else if dimx ≤ 0 then pure []
+  else if start < 0 ∨ start + dimx * bpp > Int.ofNat data.length then
+    ubAt ("heap-buffer-overflow@" ++ fRle) "sub-rectangle outside the decoded image (settings are not checked against the image size)"
+  else pure ((data.drop start.toNat).take (dimx.toNat * bpp))
+
 def rleCopyRows (i : Info) (st : Settings) (dimx : Int) (bpp : Nat) (data : List Nat) (firstRow : Int) : Nat → Int → Dest → M Dest
   | 0, _, d => pure d
   | n + 1, y, d => do
-    -- beg = v.row_begin(first_row + y) + top_left.x over the flipped whole-image view v
-    let r := i.height - 1 - (firstRow + y)
-    let start := (r * i.width + st.x0) * bpp
-    let px ← if firstRow + y < 0 ∨ firstRow + y ≥ i.height then
-        ubAt ("assert@" ++ fRle) "v.row_begin(first_row + y): BOOST_ASSERT(0 <= y && y < height()) (settings are not checked against the image size)"
-      else if dimx ≤ 0 then pure []
-      else if start < 0 ∨ start + dimx * bpp > Int.ofNat data.length then
-        ubAt ("heap-buffer-overflow@" ++ fRle) "sub-rectangle outside the decoded image (settings are not checked against the image size)"
-      else pure ((data.drop start.toNat).take (dimx.toNat * bpp))
+    let px ← rleRowPixels i st dimx bpp data firstRow y
     let d ← d.setRow fRle (dstRow i d y) (cvtBgrx bpp st.dst px)
     rleCopyRows i st dimx bpp data firstRow n (y + 1) d
 
@@ -1235,5 +1240,6 @@ def decode (f : Fmt) (dev : Dev) (bytes : List UInt8) (st : Settings) : Outcome 
   | .error (.err k) => .err k
   | .error (.ub s w) => .ub s w
   | .error (.hang w) => .hang w
+  | .error (.fuel w) => .hang ("fuel exhausted in " ++ w)
 
 end GilVerif.Model.C11
